@@ -65,6 +65,13 @@ var guardSpecs = []guardSpec{
 	{"updNotRestartableGuard", "pkg/webhook/v1beta1/experiment/validator/validator.go", "ValidateExperiment", `Child("resumePolicy"), instance.Spec.ResumePolicy, msg)`, updAtoms, updParams},
 	{"updMaxNotAboveGuard", "pkg/webhook/v1beta1/experiment/validator/validator.go", "ValidateExperiment", `"must be greater than status.trials count"`, updAtoms, updParams},
 	{"updForbiddenGuard", "pkg/webhook/v1beta1/experiment/validator/validator.go", "ValidateExperiment", "field.Forbidden(specPath", updAtoms, updParams},
+	{"addFinalizerGuard", "pkg/controller.v1beta1/trial/trial_controller_util.go", "needUpdateFinalizers", "append(pendingFinalizers, cleanMetricsFinalizer)", finAtoms, finParams},
+	{"removeFinalizerGuard", "pkg/controller.v1beta1/trial/trial_controller_util.go", "needUpdateFinalizers", "stmt:finalizers := []string{}", finAtoms, finParams},
+	{"dbCleanupGuard", "pkg/controller.v1beta1/trial/trial_controller_util.go", "updateFinalizers", "r.DeleteTrialObservationLog(instance)", finAtoms, finParams},
+	{"finalizerWriteGuard", "pkg/controller.v1beta1/trial/trial_controller_util.go", "updateFinalizers", "r.Update(context.TODO(), instance)", finAtoms, finParams},
+	{"callUpdateFinalizersGuard", "pkg/controller.v1beta1/trial/trial_controller.go", "Reconcile", "r.updateFinalizers(instance, finalizers)", trAtoms, trParams},
+	{"markTrialCreatedGuard", "pkg/controller.v1beta1/trial/trial_controller.go", "Reconcile", "instance.MarkTrialStatusCreated(", trAtoms, trParams},
+	{"callReconcileTrialGuard", "pkg/controller.v1beta1/trial/trial_controller.go", "Reconcile", "r.reconcileTrial(instance)", trAtoms, trParams},
 	{"sugRestartGuard", "pkg/controller.v1beta1/experiment/experiment_controller_util.go", "restartSuggestion", "original.DeepCopy()",
 		map[string]string{"err != nil": "getFailed", "errors.IsNotFound(err)": "notFound", "original.IsCompleted()": "sugCompleted", "original.IsRestarting()": "sugRestarting", "original.IsSucceeded()": "sugSucceeded", "instance.IsRestarting()": "expRestarting"},
 		[]string{"getFailed", "notFound", "sugCompleted", "sugRestarting", "sugSucceeded", "expRestarting"}},
@@ -139,6 +146,19 @@ var updAtoms = map[string]string{
 var updParams = []string{"isUpdate", "specChanged", "oldCompleted", "oldRestartable", "maxSet", "maxNotAboveTrials", "specEqual1", "specEqual2",
 	"nameOk", "nameLong", "maxFailedSet", "maxFailedNegative", "maxNotPositive", "parSet", "parNotPositive", "maxFailedAboveMax", "parAboveMax"}
 
+var finAtoms = map[string]string{
+	"trial.ObjectMeta.DeletionTimestamp.IsZero()": "(!deleting)", "instance.ObjectMeta.DeletionTimestamp.IsZero()": "(!deleting)",
+	"contained": "hasFinalizer", "elem == cleanMetricsFinalizer": "isKatibFinalizer", "pendingFinalizer != cleanMetricsFinalizer": "(!isKatibFinalizer)",
+	"err != nil": "failed#", "isDelete": "isDelete",
+}
+var finParams = []string{"deleting", "hasFinalizer", "isKatibFinalizer", "failed1", "failed2", "isDelete"}
+
+var trAtoms = map[string]string{
+	"err != nil": "failed#", "apierrors.IsNotFound(err)": "notFound", "needUpdate": "finalizerUpdateDue", "instance.IsCreated()": "created",
+	"instance.Status.StartTime == nil": "startUnset", "instance.Status.CompletionTime == nil": "completionUnset",
+}
+var trParams = []string{"failed1", "failed2", "notFound", "finalizerUpdateDue", "created", "startUnset", "completionUnset"}
+
 var verdictAtoms = map[string]string{
 	"jobStatus.Condition == trialutil.JobSucceeded": "jobSucceeded", "jobStatus.Condition == trialutil.JobFailed": "jobFailed",
 	"jobStatus.Condition == trialutil.JobRunning": "jobRunning",
@@ -169,6 +189,12 @@ func (g *guardWalker) atom(src string) (string, bool) {
 		}
 		g.occ[a]++
 		return fmt.Sprintf("%s%d", strings.TrimSuffix(a, "#"), g.occ[a]), true
+	}
+	if !ok {
+		// a boolean variable assigned once stands for its definition, wherever it occurs in a condition
+		if rhs, bound := g.binds[src]; bound && token.IsIdentifier(src) {
+			return "(" + boolToLeanF(g.fset, rhs, g.atom, &g.unknown) + ")", true
+		}
 	}
 	return a, ok
 }
@@ -209,8 +235,14 @@ func singleBinds(body *ast.BlockStmt) map[string]ast.Expr {
 func (g *guardWalker) containsCall(n ast.Node) bool {
 	hit := false
 	ident := strings.TrimPrefix(g.spec.call, "ident:")
+	stmt := strings.TrimPrefix(g.spec.call, "stmt:")
 	ast.Inspect(n, func(m ast.Node) bool {
-		if ident != g.spec.call {
+		if stmt != g.spec.call {
+			// `stmt:<text>`: a statement whose source starts with <text>
+			if st, ok := m.(ast.Stmt); ok && strings.HasPrefix(nodeSrc(g.fset, st), stmt) {
+				hit = true
+			}
+		} else if ident != g.spec.call {
 			if id, ok := m.(*ast.Ident); ok && id.Name == ident {
 				hit = true
 			}
